@@ -6,6 +6,6 @@ git diff --quiet || { echo "/repo has uncommitted changes"; exit 2; }
 git apply "$P" || { echo "patch does not apply"; exit 2; }
 for c in "$@"; do
   /verif/vcheck "$c" --tier quick > /tmp/mutant_out.txt 2>&1; rc=$?
-  echo "== $c on $(basename $P): exit=$rc"; grep -E "^VIOLATION|violation-detail|MACHINERY|KNOWN" /tmp/mutant_out.txt | cut -c1-300 | head -8
+  echo "== $c on $(basename $P): exit=$rc"; grep -E "^VIOLATION|violation-detail|MACHINERY" /tmp/mutant_out.txt | cut -c1-300 | head -8
 done
 git checkout -- . 
